@@ -371,3 +371,14 @@ def conjuncts(e: ast.AST) -> List[ast.AST]:
             out += conjuncts(v)
         return out
     return [e]
+
+
+def equivalent_ifexp(e: ast.AST, var: str, none_val: str, some_val: str) -> bool:
+    """e is `<none_val> if <var> is None else <some_val>` in either orientation"""
+    if not isinstance(e, ast.IfExp):
+        return False
+    atom, neg = polarity(e.test)
+    if _txt(atom) != f"{var} is None":
+        return False
+    a, b = (_txt(e.body), _txt(e.orelse)) if not neg else (_txt(e.orelse), _txt(e.body))
+    return a == none_val and b == some_val
